@@ -2,7 +2,7 @@
    evaluation (what the factory's Vstack of sliced operators computes), and the operator tree the
    factory builds. *)
 From Coq Require Import ZArith List Lia Bool.
-From SV Require Import lib.Scalar lib.BigSum lib.NdArray model.Block model.Linop.
+From SV Require Import lib.Scalar lib.BigSum lib.LoopIR lib.NdArray model.Block model.Linop.
 Import ListNotations.
 Local Open Scope Z_scope.
 
@@ -52,3 +52,98 @@ Definition sense_tree (ishape : list Z) (ms : list aref) (fleaf : list Z -> lino
   | [m], [w] => sense_tree1 ishape m fleaf w
   | _, _ => Vstack (map (fun mw => sense_tree1 ishape (fst mw) fleaf (snd mw)) (combine ms ws)) (Some 0)
   end.
+
+(* ------------------------------------------------------------------------------------------------
+   The factory as a function of its ARGUMENTS (CPU, single process: tseg = None, comm = None).
+   [sense_tree] above takes the per-batch arrays as given; here they are computed from the caller's
+   arrays the way sigpy.mri.linop.Sense does it: maps[c*b : (c+1)*b], weights ** 0.5, -coord,
+   weights sliced like the maps when they carry a coil axis.  Arrays are references (tag, shape);
+   the tag of a derived array is given by an abstract naming [aops], its shape is computed
+   (numpy basic indexing: Linop.slice_shape).  tools/translate_sense.py regenerates this function
+   from the source on every run (gen/Gen_sense.v: gen_Sense_ok); proofs/SenseFactory.v shows that it
+   is [sense_tree] applied to those per-batch arrays. *)
+Record aops := mkAops {
+  slice0_tag : Z -> Z -> Z -> Z;      (* tag of a[lo:hi] (slice of the FIRST axis) from the tag of a *)
+  sqrt_tag : Z -> Z;                  (* tag of a ** 0.5 *)
+  neg_tag : Z -> Z;                   (* tag of -a *)
+  mask_tag : Z -> Z;                  (* tag of (rss(a, axes=(0,)) > 0).astype(a.dtype) *)
+  mul_tag : Z -> Z -> Z;              (* tag of a * b (a NEW array) *)
+  (* library fact, not a name: coefficient shape of sigpy.linop.Wavelet(ishape, axes, wave_name, level) (pywt) *)
+  wav_shape : list Z -> option (list Z) -> Z -> option Z -> list Z
+}.
+
+Definition a_slice0 (O : aops) (a : aref) (lo hi : Z) : aref :=
+  ARef (slice0_tag O (atag a) lo hi)
+       (match slice_shape (ashape_of a) [SSlice (Some lo) (Some hi) None] with Ok s => s | Err _ => [] end).
+Definition a_sqrt (O : aops) (a : aref) : aref := ARef (sqrt_tag O (atag a)) (ashape_of a).
+Definition a_neg (O : aops) (a : aref) : aref := ARef (neg_tag O (atag a)) (ashape_of a).
+(* the sampling mask estimated from k-space data y: rss over the coil axis (axis 0) > 0 *)
+Definition a_mask (O : aops) (y : aref) : aref := ARef (mask_tag O (atag y)) (tl (ashape_of y)).
+(* a * b with numpy broadcasting *)
+Definition a_mul (O : aops) (a b : aref) : aref :=
+  ARef (mul_tag O (atag a) (atag b))
+       (match multiply_oshape (ashape_of a) (ashape_of b) with Ok s => s | Err _ => [] end).
+
+(* len(a) of an array = shape[0] *)
+Definition alen (a : aref) : Z := getZ (ashape_of a) 0.
+
+(* defaults of sigpy.linop.NUFFT.__init__ as they appear in the leaves built by the factory:
+   oversamp in hundredths (1.25), kernel width *)
+Definition nufft_default_oversamp : Z := 125.
+Definition nufft_default_width : Z := 4.
+
+Record sense_args := mkSenseArgs {
+  sa_mps : aref;
+  sa_coord : option aref;
+  sa_weights : option aref;
+  sa_ishape : option (list Z);
+  sa_batch : option Z;                (* coil_batch_size *)
+  sa_transp : bool                    (* transp_nufft *)
+}.
+
+(* (ishape, img_ndim) *)
+Definition sense_img (a : sense_args) : list Z * Z :=
+  match sa_ishape a with
+  | None => (tl (ashape_of (sa_mps a)), lenZ (ashape_of (sa_mps a)) - 1)
+  | Some s => (s, lenZ s)
+  end.
+
+(* the single-coil-batch Fourier leaf: centred FFT over the image axes, NUFFT(coord), or NUFFT(-coord).H *)
+Definition sense_fleaf (O : aops) (coord : option aref) (transp : bool) (img_ndim : Z) (osh : list Z) : linop :=
+  match coord with
+  | None => FFT osh (Some (zrange (- img_ndim) 0 1)) true
+  | Some c =>
+      if transp then adj (NUFFT osh (a_neg O c) nufft_default_oversamp nufft_default_width false)
+      else NUFFT osh c nufft_default_oversamp nufft_default_width false
+  end.
+
+(* all coils at once: [sqrt(weights)] * F * Multiply(ishape, mps) *)
+Definition sense_single (O : aops) (a : sense_args) : linop :=
+  sense_tree1 (fst (sense_img a)) (sa_mps a) (sense_fleaf O (sa_coord a) (sa_transp a) (snd (sense_img a)))
+              (option_map (a_sqrt O) (sa_weights a)).
+
+Definition sense_nbatches (nc b : Z) : Z := (nc + b - 1) / b.
+Definition sense_batch_maps (O : aops) (mps : aref) (b c : Z) : aref := a_slice0 O mps (c * b) ((c + 1) * b).
+(* weights that carry a coil axis (k-space rank, first extent = number of coils) are split like the maps *)
+Definition sense_batch_weights (O : aops) (w : option aref) (ksp_ndim nc b c : Z) : option aref :=
+  match w with
+  | Some w0 =>
+      if (lenZ (ashape_of w0) =? ksp_ndim) && (getZ (ashape_of w0) 0 =? nc)
+      then Some (a_slice0 O w0 (c * b) ((c + 1) * b)) else Some w0
+  | None => None
+  end.
+Definition sense_ksp_ndim (coord : option aref) (img_ndim : Z) : Z :=
+  match coord with None => img_ndim + 1 | Some c => lenZ (ashape_of c) end.
+
+(* arguments of the c-th per-batch call *)
+Definition sense_batch_args (O : aops) (a : sense_args) (b c : Z) : sense_args :=
+  mkSenseArgs (sense_batch_maps O (sa_mps a) b c) (sa_coord a)
+              (sense_batch_weights O (sa_weights a) (sense_ksp_ndim (sa_coord a) (snd (sense_img a))) (alen (sa_mps a)) b c)
+              (Some (fst (sense_img a))) None (sa_transp a).
+
+Definition sense_factory (O : aops) (a : sense_args) : linop :=
+  let nc := alen (sa_mps a) in
+  let b := match sa_batch a with None => nc | Some b => b end in
+  if b <? nc
+  then Vstack (map (fun c => sense_single O (sense_batch_args O a b c)) (zrange 0 (sense_nbatches nc b) 1)) (Some 0)
+  else sense_single O a.
